@@ -2,3 +2,5 @@ pub mod linalg;
 pub mod oracle;
 pub mod pipeline;
 pub mod challenger;
+pub mod forge;
+pub mod scenarios;
